@@ -423,3 +423,74 @@ pub fn mutate_text(rng: &mut Rng, t: &mut Vec<u8>) {
         }
     }
 }
+
+// ---------------------------------------------------------------- overwriting used objects
+
+/// A block hash that fills (nearly) the whole capacity and is rich in long runs.
+pub fn bh_rich(rng: &mut Rng, cap: usize) -> Vec<u8> {
+    let len = cap - *rng.pick(&[0usize, 0, 0, 1, 2, 5]);
+    let mut out: Vec<u8> = Vec::with_capacity(len);
+    while out.len() < len {
+        let s = rng.below(64) as u8;
+        let run = *rng.pick(&[1usize, 2, 4, 5, 7, 8, 9, 12, 13, 16, 17, 21, 33]);
+        for _ in 0..run.min(len - out.len()) {
+            out.push(s);
+        }
+    }
+    out
+}
+
+/// First content of an object that is going to be overwritten: long block hashes, long runs,
+/// block hash 2 beyond 32 symbols when the type allows it, a large block size.
+pub fn model_rich(rng: &mut Rng, cap2: usize) -> Model {
+    Model { log_bs: *rng.pick(&[30u8, 29, 17, 5]), bh1: bh_rich(rng, 64), bh2: bh_rich(rng, cap2) }
+}
+
+/// A small / edge-shaped block hash: empty, up to 3 symbols, exactly the capacity, a run at the very end.
+pub fn bh_edge(rng: &mut Rng, cap: usize) -> Vec<u8> {
+    let s = rng.below(64) as u8;
+    let t = (s + 1 + rng.below(62) as u8) % 64;
+    match rng.below(10) {
+        0 | 1 => vec![],
+        2 => vec![s],
+        3 => vec![s, s],
+        4 => vec![s, s, s],
+        5 => vec![s, t, s],
+        6 => (0..cap).map(|i| ((i * 5 + s as usize) % 64) as u8).collect(),
+        7 => {
+            // exactly the capacity, ending in a run
+            let run = *rng.pick(&[4usize, 5, 8, 9]);
+            let mut v: Vec<u8> = (0..cap - run).map(|i| ((i * 3 + t as usize) % 63) as u8).collect();
+            let c = if v.last() == Some(&s) { (s + 1) % 64 } else { s };
+            v.extend(std::iter::repeat(c).take(run));
+            v
+        }
+        8 => {
+            // short, a run at the very end
+            let mut v = vec![t];
+            v.extend(std::iter::repeat(s).take(rng.range(3, 7)));
+            v
+        }
+        _ => (0..8).map(|i| (i + s % 50) as u8).collect(),
+    }
+}
+
+/// Second content (what overwrites a used object): biased to the edge shapes, including
+/// block hash 1 empty with block hash 2 non-empty.
+pub fn model_second(rng: &mut Rng, cap2: usize) -> Model {
+    let log = *rng.pick(&[0u8, 0, 1, 30, 12]);
+    match rng.below(6) {
+        0 => Model { log_bs: log, bh1: vec![], bh2: vec![] },
+        1 => Model { log_bs: log, bh1: vec![], bh2: (0..8).collect() },
+        2 => {
+            let b = bh_edge(rng, 64);
+            Model { log_bs: log, bh1: b, bh2: vec![] }
+        }
+        5 => model_raw(rng, cap2),
+        _ => {
+            let b1 = bh_edge(rng, 64);
+            let b2 = bh_edge(rng, cap2);
+            Model { log_bs: log, bh1: b1, bh2: b2 }
+        }
+    }
+}
